@@ -682,6 +682,9 @@ func propC11(c *Ctx) string {
 	// counts as a publish only if it is stored whenever the CONNECT carries one
 	c05Prune(c, "C11/PRUNE")
 	c12Writers(c, v)
+	// the object stored in the retained tree is the object queued on replay: a QoS cap written into it (instead of a
+	// copy) changes what later subscribers are replayed
+	c06Immut(c, v)
 	c.NotDecide("the retained set after arbitrary histories (equality with the last-writer model)", "QoS capping values at runtime (table decided in C06/CAP)", "offline persistent subscribers receiving retained messages published while offline (they receive them as live messages with the flag cleared)")
 	c.Assume("topic.Tree.Set replaces, Empty removes (C05)", "instance-insensitive field keys")
 	return c11Explanation
